@@ -3,7 +3,13 @@
 use crate::report::{Ctx, Spec, Stats};
 use serde_json::Value;
 
+pub mod c02;
 pub mod c03;
+pub mod c04;
+pub mod c05;
+pub mod c07;
+pub mod c20;
+pub mod common;
 
 #[derive(Clone, Copy)]
 pub struct PropDef {
@@ -13,7 +19,12 @@ pub struct PropDef {
 
 pub fn lookup(id: &str) -> Option<PropDef> {
     Some(match id {
+        "C02" => PropDef { run: c02::run, replay: c02::replay },
         "C03" => PropDef { run: c03::run, replay: c03::replay },
+        "C04" => PropDef { run: c04::run, replay: c04::replay },
+        "C05" => PropDef { run: c05::run, replay: c05::replay },
+        "C07" => PropDef { run: c07::run, replay: c07::replay },
+        "C20" => PropDef { run: c20::run, replay: c20::replay },
         _ => return None,
     })
 }
